@@ -20,7 +20,7 @@
    that is lost to back-pressure is "not forwarded" -- the theorems say what happens to messages that
    ARE forwarded and bound how often that can be. *)
 From Coq Require Import List Arith NArith Bool Lia.
-From NngV Require Import Gen.Consts Proto.Common Route.RouteModel Route.RouteWords Route.RouteProofs Route.RoutePairBus.
+From NngV Require Import Gen.Consts Proto.Common Route.RouteModel Route.RouteWords Route.RouteProofs Route.RoutePairBus Route.DeviceOrder.
 From NngV Require Proto.ReqRepBacktrace Proto.SurveyBacktrace Proto.PairModel Proto.BusModel.
 Import ListNotations.
 
@@ -63,6 +63,38 @@ Theorem device_pinned_form_leaked : forall m,
   gots o = [m] /\ sents o = [] /\ frees o = [].
 Proof. exact device_pinned_leak. Qed.
 Print Assumptions device_pinned_form_leaked.
+
+(* ---------- device_keeps_order ---------- *)
+(* device_init runs one forwarder (recv ; send ; recv ...) per direction: a single one when the far socket
+   cannot receive, a single one for a reflector (s1 == s2), two otherwise (one per direction, each reading
+   its own socket) -- so with the rule the current source has (C13_DEVICE_REFLECTOR_ONE_PATH) no socket is
+   read by more than one forwarder.  One forwarder on a socket, under EVERY schedule of its receive
+   completions and sends: what it has handed to the destination socket is an initial segment of what the
+   source socket delivered, in the same order -- hence in order per source pipe / per sender (any predicate
+   on messages) -- and a fair schedule forwards everything.  (Messages the sockets drop under back-pressure
+   never reach / leave the forwarder: dropped, never reordered.) *)
+Theorem device_keeps_order :
+  (forall one rcv1 rcv2 same, device_paths one rcv1 rcv2 same =
+     if negb (rcv1 && rcv2) then 1 else if same && one then 1 else 2) /\
+  (forall rcv1 rcv2 same, device_readers C13_DEVICE_REFLECTOR_ONE_PATH rcv1 rcv2 same = 1) /\
+  (forall input sched, exists rest, input = fs_out (fwd_run 1 input sched) ++ rest) /\
+  (forall input sched (f : pmsg -> bool), exists rest, filter f input = filter f (fs_out (fwd_run 1 input sched)) ++ rest) /\
+  (forall input, fs_out (fwd_run 1 input (drain (length input))) = input).
+Proof.
+  split; [exact device_paths_spec|]. split; [exact device_one_reader_per_socket|].
+  split; [exact one_forwarder_keeps_order|]. split; [exact one_forwarder_keeps_order_per_source|exact one_forwarder_forwards_all].
+Qed.
+Print Assumptions device_keeps_order.
+
+(* without the reflector rule (`|| (s1 == s2)` missing in device_init) a reflector runs two forwarders on
+   its one socket, and two forwarders on one socket reorder: both receives complete (m0 to path 0, m1 to
+   path 1), path 1's callback runs first -- m1 is forwarded before m0.  Replayed on the real library by the
+   `order` cases of checks/c13.py against a tree with that change (seeded/C09/6). *)
+Theorem device_two_forwarders_keep_order_refuted :
+  device_readers false true true true = 2 /\
+  forall m0 m1, fs_out (fwd_run 2 [m0; m1] [FTake 0; FTake 1; FPut 1; FPut 0]) = [m1; m0].
+Proof. split; [exact device_reflector_two_readers_without_rule|exact two_forwarders_reorder]. Qed.
+Print Assumptions device_two_forwarders_keep_order_refuted.
 
 (* ---------- chain_roundtrip ---------- *)
 (* A requester (surveyor) sends id ++ body through devices 1..n (hops, in travel order: device i
@@ -283,6 +315,7 @@ Theorem route_consts_match :
   REQ_ID_MIN = HI32 /\ (REQ_ID_MAX + 1 = W32)%N /\
   4 + 4 * RT_TTL_MAX = RT_HEADER_MAX /\
   C13_DEVICE_FREES_ATTACHED = true /\
+  C13_DEVICE_REFLECTOR_ONE_PATH = true /\
   (forall p, (PIPE_ID_MIN <= p <= PIPE_ID_MAX)%N -> pid_ok p).
 Proof.
   repeat (split; [reflexivity|]). intros p H. unfold pid_ok, PIPE_ID_MIN, PIPE_ID_MAX, HI32 in *. lia.
